@@ -35,7 +35,7 @@ def _call( f, args, kwargs ):
     except RecursionError:
         raise
     except Exception as exc:
-        raise NoFold( 'stand-in call: %s' % exc )
+        raise Raises( '%s: stand-in call: %s' % ( type( exc ).__name__, exc ))
 
 
 def _standin( func, env ):
@@ -381,6 +381,19 @@ def run_block( stmts, env, ignore_calls=(), stop_at_yield=True ):
             if isinstance( v, ast.Call ) and call_name( v ) and callable( _env_get( env, call_name( v )) if _env_get( env, call_name( v )) is not NoFold else None ):
                 fold( v, env )						# a recording stand-in of the rule's
                 continue
+            if isinstance( v, ast.Call ) and isinstance( v.func, ast.Attribute ):
+                try:
+                    base_ = fold( v.func.value, env )
+                except NoFold:
+                    base_ = None
+                if isinstance( base_, _Record ) and callable( getattr( base_, v.func.attr, None )):
+                    fold( v, env )					# a method of a record the rule supplied ( source.push( x ) )
+                    continue
+                if isinstance( base_, list ) and v.func.attr in ( 'append', 'extend', 'insert' ) and not v.keywords:
+                    getattr( base_, v.func.attr )( *[ fold( a, env ) for a in v.args ] )	# the cell's own work-list grows
+                    continue
+            if isinstance( v, ast.BoolOp ) and all( isinstance( o, ast.Call ) and any(( call_name( o ) or '' ).split( '.' )[0] == n_ for n_ in ignore_calls ) for o in v.values ):
+                continue						# `log.isEnabledFor( ... ) and log.info( ... )`
             raise NoFold( 'statement %s' % ast.dump( v )[:60] )
         if isinstance( st, ast.Assign ) and len( st.targets ) == 1:
             _store( st.targets[0], fold( st.value, env ), env )
